@@ -53,6 +53,7 @@ func (e *Env) Reimport() bool {
 		return false
 	}
 	B := lab.Attach(appB, dbB, ob, appB.LastBlockHeight(), A.Time)
+	B.OnReadPanic = A.OnReadPanic
 	e.L = B
 	e.Last = B.Observe(B.QueryCtx())
 	e.LastQ = nil
